@@ -289,7 +289,6 @@ struct Runner {
     Rec const* r = nullptr;
     bool nz      = false; // zb (n + terminator) is valid
 
-    bool skip() const { return rec_idx == rec0 && call_idx < call0; }
 
     void set_env(int env)
     {
@@ -324,7 +323,7 @@ struct Runner {
     void call(char const* op, char const* ov, long d, long pos, long cnt, long pos2, long cnt2, F f)
     {
         long my = call_idx++;
-        if (skip()) { return; }
+        if (rec_idx == rec0 && my < call0) { return; } // already executed by an earlier child
         Line ln(shm->desc);
         ln.s("{");
         ln.ks("op", op);
@@ -536,6 +535,7 @@ struct Runner {
 struct Job {
     std::string mode, type, script;
     long nrec = 0, maxlen = 64;
+    long shard = 0, nshards = 1; // this process handles the records i with i % nshards == shard
     uint64_t seed = 1;
     std::vector<json> recs;
 };
@@ -549,6 +549,7 @@ void child_main(Job const& job, long rec0, long call0)
     rn.call0 = call0;
     long total = job.mode == "replay" ? (long)job.recs.size() : job.nrec;
     for (long i = rec0; i < total; ++i) {
+        if (i % job.nshards != job.shard) { continue; }
         rn.rec_idx = i;
         Rec r      = job.mode == "replay" ? rec_of(job.recs[(size_t)i]) : random_rec(job.seed, i, job.maxlen);
         rn.run_record(r);
@@ -561,8 +562,6 @@ void child_dispatch(Job const& job, long rec0, long call0)
     if (job.type == "char") { child_main<char>(job, rec0, call0); }
     else if (job.type == "wchar_t") { child_main<wchar_t>(job, rec0, call0); }
     else if (job.type == "char16_t") { child_main<char16_t>(job, rec0, call0); }
-    else if (job.type == "char8_t") { child_main<char8_t>(job, rec0, call0); }
-    else if (job.type == "char32_t") { child_main<char32_t>(job, rec0, call0); }
     else {
         std::fprintf(stderr, "unknown char type %s\n", job.type.c_str());
         _exit(2);
@@ -571,8 +570,8 @@ void child_dispatch(Job const& job, long rec0, long call0)
 
 } // namespace
 
-// usage: stringview_driver replay <chartype> <records.ndjson>
-//        stringview_driver random <chartype> <nrecords> <seed> [maxlen]
+// usage: stringview_driver replay <chartype> <records.ndjson> [shard nshards]
+//        stringview_driver random <chartype> <nrecords> <seed> <maxlen> [shard nshards]
 int main(int argc, char** argv)
 {
     if (argc < 4) {
@@ -585,10 +584,22 @@ int main(int argc, char** argv)
     if (job.mode == "replay") {
         job.script = argv[3];
         job.recs   = vh::read_ndjson(job.script);
+        if (argc > 5) {
+            job.shard   = std::atol(argv[4]);
+            job.nshards = std::atol(argv[5]);
+        }
     } else {
         job.nrec   = std::atol(argv[3]);
         job.seed   = argc > 4 ? std::strtoull(argv[4], nullptr, 10) : vh::env_seed();
         job.maxlen = argc > 5 ? std::atol(argv[5]) : 64;
+        if (argc > 7) {
+            job.shard   = std::atol(argv[6]);
+            job.nshards = std::atol(argv[7]);
+        }
+    }
+    if (job.nshards < 1 || job.shard < 0 || job.shard >= job.nshards) {
+        std::fprintf(stderr, "bad shard\n");
+        return 2;
     }
     shm = static_cast<Shm*>(mmap(nullptr, sizeof(Shm), PROT_READ | PROT_WRITE, MAP_SHARED | MAP_ANONYMOUS, -1, 0));
     if (shm == MAP_FAILED) {
